@@ -443,6 +443,10 @@ func (fr *Frame) applyContract(site string, sig *types.Signature, callee *ssa.Fu
 		if n != "" && n != "_" {
 			env.vars[n] = args[i]
 			env.oldVars[n] = args[i]
+		} else {
+			// unnamed parameter (function types usually have none): arg<i>
+			env.vars[fmt.Sprintf("arg%d", i)] = args[i]
+			env.oldVars[fmt.Sprintf("arg%d", i)] = args[i]
 		}
 	}
 	pre := st.clone()
